@@ -71,6 +71,23 @@ def near_pairs(cs, rnd):
         d2 = _copy(d)
         d2['excluded'] = list(reversed(d2['excluded']))   # same settings, other order: may share the key
         out.append(d2)
+    if len(cs['tgt']) > 1:
+        # one exclusion from the same source to another target (same count per source, other target)
+        i_s = rnd.randrange(len(cs['src']))
+        j1 = rnd.randrange(len(cs['tgt']))
+        j2 = (j1 + 1 + rnd.randrange(len(cs['tgt']) - 1)) % len(cs['tgt'])
+        for j_ in (j1, j2):
+            d = _copy(cs)
+            d['excluded'] = [[i_s, j_]]
+            out.append(d)
+    if len(cs['src']) > 1:
+        j_t = rnd.randrange(len(cs['tgt']))
+        i1 = rnd.randrange(len(cs['src']))
+        i2 = (i1 + 1 + rnd.randrange(len(cs['src']) - 1)) % len(cs['src'])
+        for i_ in (i1, i2):
+            d = _copy(cs)
+            d['excluded'] = [[i_, j_t]]
+            out.append(d)
     if cs.get('patterns'):
         d = _copy(cs)
         d['patterns'] = d['patterns'][:-1] or None
